@@ -446,6 +446,7 @@ enum Act {
   AddInvalid,
   AddValidInvalid,
   AddBlank,
+  AddOddId,
   BulkValid,
   BulkInvalid,
   BulkValidInvalid,
@@ -457,7 +458,7 @@ enum Act {
   Search,
 }
 
-const ALPHABET: [Act; 14] = [
+const ALPHABET: [Act; 15] = [
   Act::AddOne,
   Act::AddTwo,
   Act::BulkValid,
@@ -466,6 +467,7 @@ const ALPHABET: [Act; 14] = [
   Act::AddInvalid,
   Act::AddValidInvalid,
   Act::AddBlank,
+  Act::AddOddId,
   Act::BulkInvalid,
   Act::BulkValidInvalid,
   Act::DeleteWhitespace,
@@ -482,6 +484,7 @@ impl Act {
       Act::AddInvalid => "add[c=<number>]",
       Act::AddValidInvalid => "add[c=v3,d=<number>]",
       Act::AddBlank => "add[blank]",
+      Act::AddOddId => "add[f=v6,'g '=v6]",
       Act::BulkValid => "bulk[b=v4,c=v4]",
       Act::BulkInvalid => "bulk[d=<number>]",
       Act::BulkValidInvalid => "bulk[d=v5,e=<number>]",
@@ -506,6 +509,9 @@ impl Act {
       Act::AddInvalid => ("/add", ND, Some("{\"_id\":\"c\",\"body\":5}\n")),
       Act::AddValidInvalid => ("/add", ND, Some("{\"_id\":\"c\",\"body\":\"v3\"}\n{\"_id\":\"d\",\"body\":5}\n")),
       Act::AddBlank => ("/add", ND, Some("\n  \n")),
+      // a schema-valid batch whose second id carries trailing whitespace: accepted today; a deeper
+      // layer rejecting it after the first document was queued must not cost earlier acks
+      Act::AddOddId => ("/add", ND, Some("{\"_id\":\"f\",\"body\":\"v6\"}\n{\"_id\":\"g \",\"body\":\"v6\"}\n")),
       Act::BulkValid => ("/bulk", JS, Some(r#"{"docs":[{"_id":"b","body":"v4"},{"_id":"c","body":"v4"}]}"#)),
       Act::BulkInvalid => ("/bulk", JS, Some(r#"{"docs":[{"_id":"d","body":5}]}"#)),
       Act::BulkValidInvalid => ("/bulk", JS, Some(r#"{"docs":[{"_id":"d","body":"v5"},{"_id":"e","body":5}]}"#)),
@@ -526,6 +532,7 @@ impl Act {
       Act::AddInvalid => vec![QOp::Add("c", "<number>")],
       Act::AddValidInvalid => vec![QOp::Add("c", "v3"), QOp::Add("d", "<number>")],
       Act::AddBlank => vec![],
+      Act::AddOddId => vec![QOp::Add("f", "v6"), QOp::Add("g ", "v6")],
       Act::BulkValid => vec![QOp::Add("b", "v4"), QOp::Add("c", "v4")],
       Act::BulkInvalid => vec![QOp::Add("d", "<number>")],
       Act::BulkValidInvalid => vec![QOp::Add("d", "v5"), QOp::Add("e", "<number>")],
